@@ -155,8 +155,97 @@ fn vec_index(sc: &J) -> J {
         "first": ArrayView::first(&v).is_some(), "last": ArrayView::last(&v).is_some()})
 }
 
+fn narrow(sc: &J) -> J {
+    let ty = sc.get("type").and_then(|t| t.as_str()).unwrap_or("i64");
+    let v: i128 = sc.get("value").and_then(|t| t.as_str()).and_then(|t| t.parse().ok()).unwrap_or(0);
+    let scalar = sc.get("serializer").and_then(|t| t.as_str()).unwrap_or("ScalarSerializer") == "ScalarSerializer";
+    macro_rules! go {
+        ($t:ty) => {{
+            let x = v as $t;
+            if scalar {
+                match liquid_core::model::to_scalar(&x) {
+                    Ok(s) => json!({"outcome": "ok", "is_err": false, "integer": s.to_integer(), "float": s.to_float()}),
+                    Err(_) => json!({"outcome": "ok", "is_err": true}),
+                }
+            } else {
+                match liquid_core::model::to_value(&x) {
+                    Ok(s) => json!({"outcome": "ok", "is_err": false, "integer": s.as_scalar().and_then(|s| s.to_integer()), "float": s.as_scalar().and_then(|s| s.to_float())}),
+                    Err(_) => json!({"outcome": "ok", "is_err": true}),
+                }
+            }
+        }};
+    }
+    match ty {
+        "i8" => go!(i8),
+        "i16" => go!(i16),
+        "i32" => go!(i32),
+        "i64" => go!(i64),
+        "u8" => go!(u8),
+        "u16" => go!(u16),
+        "u32" => go!(u32),
+        _ => go!(u64),
+    }
+}
+
+fn view_summary(v: &dyn ValueView) -> J {
+    use liquid_core::model::State;
+    json!({
+        "render": v.render().to_string(), "source": v.source().to_string(), "type_name": v.type_name(),
+        "truthy": v.query_state(State::Truthy), "default": v.query_state(State::DefaultValue), "empty": v.query_state(State::Empty), "blank": v.query_state(State::Blank),
+        "to_kstr": v.to_kstr().as_str(), "to_value": serde_json::to_value(v.to_value()).unwrap_or(J::Null),
+        "as_scalar": v.as_scalar().map(|s| s.to_kstr().into_owned().to_string()), "is_scalar": v.is_scalar(),
+        "as_array": v.as_array().map(|a| a.size()), "as_object": v.as_object().map(|o| o.size()),
+        "as_state": v.as_state().map(|s| format!("{:?}", s)), "is_nil": v.is_nil(),
+    })
+}
+
+fn views(_sc: &J) -> J {
+    use liquid_core::model::ValueCow;
+    let samples: Vec<Value> = vec![
+        Value::Nil, Value::scalar(0i64), Value::scalar(-7i64), Value::scalar(1.5f64), Value::scalar(true), Value::scalar(false), Value::scalar(""), Value::scalar("  "),
+        Value::scalar("héllo"), Value::Array(vec![]), Value::Array(vec![Value::scalar(1i64), Value::Nil]),
+        Value::Object(to_obj(Some(&json!({})))), Value::Object(to_obj(Some(&json!({"k": [1, 2]})))),
+        Value::State(liquid_core::model::State::Empty), Value::State(liquid_core::model::State::Blank),
+    ];
+    for v in &samples {
+        let base = view_summary(v);
+        let by_ref: &Value = v;
+        let checks: Vec<(&str, J)> = vec![
+            ("&T", view_summary(&by_ref)),
+            ("Some", view_summary(&Some(v.clone()))),
+            ("ValueCow::Borrowed", view_summary(&ValueCow::Borrowed(v))),
+            ("ValueCow::Owned", view_summary(&ValueCow::Owned(v.clone()))),
+            ("to_value", view_summary(&v.to_value())),
+            ("into_owned", view_summary(&ValueCow::Borrowed(v).into_owned())),
+        ];
+        for (name, got) in checks {
+            if got != base {
+                return json!({"outcome": "violation", "wrapper": name, "value": base, "got": got});
+            }
+        }
+    }
+    let none: Option<Value> = None;
+    if view_summary(&none) != view_summary(&Value::Nil) {
+        return json!({"outcome": "violation", "wrapper": "None", "got": view_summary(&none)});
+    }
+    json!({"outcome": "ok", "values": samples.len()})
+}
+
 pub fn run(kind: &str, sc: &J) -> J {
     match kind {
+        "datetime_cmp" => {
+            use liquid_core::model::DateTime;
+            let g = |k: &str| sc.get(k).and_then(|v| v.as_i64()).unwrap_or(0);
+            let base = DateTime::from_ymd(2020, 6, 15);
+            let mut a = base;
+            *a = (*base + time::Duration::seconds(g("sa"))).to_offset(time::UtcOffset::from_hms(g("oa") as i8, 0, 0).unwrap());
+            let mut b = base;
+            *b = (*base + time::Duration::seconds(g("sb"))).to_offset(time::UtcOffset::from_hms(g("ob") as i8, 0, 0).unwrap());
+            let (x, y) = (ScalarCow::new(a), ScalarCow::new(b));
+            json!({"outcome": "ok", "eq": x == y, "cmp": ord_str(x.partial_cmp(&y))})
+        }
+        "narrow" => narrow(sc),
+        "views" => views(sc),
         "scalar_rel" => scalar_rel(sc),
         "vec_index" => vec_index(sc),
         "stack" => {
